@@ -357,6 +357,7 @@ def c20(run):
     run.sample_file(out1, k=2)
     run.sample_file(out2, k=2)
     run.replay([out1], "CStr vectors")
+    run.record_and_validate("CStr", "Trace_CStr", "Trace_CStr.cfg", n_files=2 if q else 8, n_events=3000 if q else 10000)
     _concat_cases(run, out2, "C20-concat").execute()
     run.exhaustive = False
     run.assumptions += [BOUNDED, STD_GUARD, "concatenation programs are generated from the TLC-emitted descriptors; the "
